@@ -234,10 +234,10 @@ class Run(object):
                 self._fail("C03", op, "isometry", {"core": i, "side": side, "defect": defect, "range": [s, e]}, rec)
         if not truncating:
             # -- value preserved
-            rd = M.rel_diff(after.dense, before.dense)
-            if not (rd <= TOL_VALUE):
-                self._fail("C03", op, "value", {"rel_diff": rd, "range": [s, e], "ranks_before": ranks_before,
-                                                "ranks_after": ranks_after}, rec)
+            bad, err = before.differs(after.dense, TOL_VALUE)
+            if bad:
+                self._fail("C03", op, "value", {"error": err, "norm": before.norm, "scale": before.scale, "range": [s, e],
+                                                "ranks_before": ranks_before, "ranks_after": ranks_after}, rec)
         else:
             self._check_truncation(op, rec, before, after, thr, mr, touched_bonds, d)
         self.t = res
@@ -264,7 +264,7 @@ class Run(object):
                 if r != np.inf and r < len(sv):
                     bound2 += float(np.sum(sv[int(r):] ** 2))
             err = float(env.REAL.np_norm((after.dense - before.dense).ravel())) if after.dense.shape == before.dense.shape else INF
-            lim = (1 + 1e-8) * math.sqrt(bound2) + 1e-11 * (before.norm + 1e-300)
+            lim = (1 + 1e-8) * math.sqrt(bound2) + 1e-11 * before.norm + before.floor()
             if not (err <= lim):
                 self._fail("C04", op, "quasi-optimal", {"error": err, "bound": math.sqrt(bound2), "caps": [None if c == np.inf else c for c in caps],
                                                          "ranks_after": ranks_after}, rec)
@@ -314,9 +314,9 @@ class Run(object):
             self._fail("C04", op, "dims-changed", {"before": before.meta, "after": after.meta}, rec)
         ranks_after = list(after.meta[3])
         if thr == 0 and mr is None:
-            rd = M.rel_diff(after.dense, before.dense)
-            if not (rd <= TOL_VALUE):
-                self._fail("C04", op, "exact", {"rel_diff": rd}, rec)
+            bad, err = before.differs(after.dense, TOL_VALUE)
+            if bad:
+                self._fail("C04", op, "exact", {"error": err, "norm": before.norm, "scale": before.scale}, rec)
         else:
             self._check_truncation(op, rec, before, after, thr, mr, set(range(1, d)), d)
             if op == "tt_from_array" and thr != 0 and mr is None:
@@ -327,7 +327,7 @@ class Run(object):
                     cols = int(np.prod(before.meta[1][k + 1:])) * int(np.prod(before.meta[2][k + 1:]))
                     disc += max(0, min(rows, cols) - ranks_after[k + 1])
                 err = float(env.REAL.np_norm((after.dense - before.dense).ravel()))
-                lim = (1 + 1e-8) * thr * before.norm * math.sqrt(disc) + 1e-11 * before.norm
+                lim = (1 + 1e-8) * thr * before.norm * math.sqrt(disc) + 1e-11 * before.norm + before.floor()
                 if not (err <= lim):
                     self._fail("C04", op, "threshold-bound", {"error": err, "bound": thr * before.norm * math.sqrt(disc),
                                                                "discarded": disc, "threshold": thr, "ranks_after": ranks_after}, rec)
@@ -450,9 +450,9 @@ class Run(object):
                 self._fail("C05", "svd", "consistent", {"what": what, "problem": p, "overwrite": ow}, rec)
         if not ow:
             now = M.Snapshot(t)
-            if now.meta != before.meta or M.rel_diff(now.dense, before.dense) > TOL_SAME:
+            if now.meta != before.meta or before.differs(now.dense, TOL_SAME)[0]:
                 self._fail("C05", "svd", "input-changed", {"before": before.meta, "after": now.meta,
-                                                           "rel_diff": M.rel_diff(now.dense, before.dense)}, rec)
+                                                           "error": before.differs(now.dense, TOL_SAME)[1]}, rec)
         s = np.asarray(s)
         r = len(s)
         A = M.unfolding(before.dense, idx)
@@ -468,9 +468,9 @@ class Run(object):
             self._fail("C05", "svd", "orthonormal", {"u_defect": gu, "v_defect": gv, "index": idx}, rec)
         if mr is None:
             sv = env.REAL.np_svd(A, compute_uv=False)
-            s1 = sv[0] if len(sv) else 0.0
+            s1 = (sv[0] if len(sv) else 0.0) + 1e-4 * before.scale   # absolute floor for (nearly) cancelling tensors
             rec_err = float(env.REAL.np_norm(A - (U * s).dot(V)))
-            if not (rec_err <= 1e-8 * (before.norm + 1e-300)):
+            if not (rec_err <= 1e-8 * before.norm + before.floor()):
                 self._fail("C05", "svd", "reconstruction", {"error": rec_err, "norm": before.norm, "index": idx, "threshold": thr}, rec)
             ssorted = np.sort(np.abs(s))[::-1]
             k = min(r, len(sv))
@@ -494,8 +494,8 @@ class Run(object):
         thr = a.get("threshold", 0)
         ow = bool(a.get("overwrite", False))
         before = self.snap
-        if before.norm == 0.0:
-            return "skip"
+        if before.norm == 0.0 or before.norm < 1e-6 * before.scale:
+            return "skip"   # (nearly) zero by cancellation: the pseudoinverse amplifies rounding noise without bound
         A = M.unfolding(before.dense, idx)
         sv = env.REAL.np_svd(A, compute_uv=False)
         rel = sv / sv[0]
@@ -524,7 +524,7 @@ class Run(object):
                 self._fail("C05", "pinv", "consistent", {"what": what, "problem": p, "overwrite": ow}, rec)
         if not ow:
             now = M.Snapshot(t)
-            if now.meta != before.meta or M.rel_diff(now.dense, before.dense) > TOL_SAME:
+            if now.meta != before.meta or before.differs(now.dense, TOL_SAME)[0]:
                 self._fail("C05", "pinv", "input-changed", {"before": before.meta, "after": now.meta}, rec)
         P = M.dense(out)
         if out.row_dims != list(before.meta[1]) or out.col_dims != list(before.meta[2]):
